@@ -342,7 +342,10 @@ PHandler(p, e) ==
   LET s == e.s IN
   IF p.dead \/ s \notin Sid THEN p
   ELSE IF e.op = "start" THEN
-    IF p.stim.start = s /\ ~p.hst[s] THEN [p EXCEPT !.hst[s] = TRUE]
+    \* 5.1.2: never more concurrently active streams (running handlers) than advertised
+    IF Cardinality({t \in Sid : p.hst[t] /\ p.ph[t] \in {"open", "hcr", "hcl"}} \cup {s}) > p.k.maxs
+      THEN V(p, "OverLimit", s, Cardinality(Live(p)))
+    ELSE IF p.stim.start = s /\ ~p.hst[s] THEN [p EXCEPT !.hst[s] = TRUE]
     ELSE V(p, "BadStart", s, "")
   ELSE IF e.op = "read" /\ e.n > 0 THEN
     IF ~Fits(p.pend[s], e.runs) THEN V(p, "HandlerData", s, e.n)
